@@ -1161,6 +1161,18 @@ class World(object):
             x = ao.dot(bo) if route == 'method' else np.dot(ao, bo) if route == 'np' else fxf.dot(ao, bo, **kwargs)
         elif f == 'clip':
             lo_, hi_ = op.get('lo', 0), op.get('hi', 1)
+            # bounds handed over as caller-owned arrays / lists: inputs like any other (C20)
+            for key in ('lo_c', 'hi_c'):
+                if op.get(key) is not None and self.containers:
+                    cobj = self.containers[op[key] % len(self.containers)][0]
+                    # (list bounds only for small fractions: the defect fixed by 5db21e9 repeated the
+                    #  list 2**n_frac times, and a tree that brings it back must not eat the machine)
+                    if V.is_numeric_container(cobj) and (isinstance(cobj, np.ndarray) or ao.n_frac <= 10):
+                        self.bump('clip_bound_from_container')
+                        if key == 'lo_c':
+                            lo_ = cobj
+                        else:
+                            hi_ = cobj
             x = (ao.clip(lo_, hi_) if route == 'method' else np.clip(ao, lo_, hi_) if route == 'np'
                  else fxf.clip(ao, lo_, hi_, **kwargs))
         elif f in ('transpose', 'diagonal', 'trace'):
